@@ -46,6 +46,9 @@ type wPod struct {
 	// force-delete batch or the graceful one, which must not change whether Drain reports the node as drained
 	// (the model's drain_done ignores it), so it is not part of the Gallina pod.
 	Grace *int64
+	// Flv selects, reproducibly, among API shapes that the model's pod abstracts from: which toleration makes
+	// (or fails to make) the pod tolerate the taint, owner kind, phase, priority class, volume kinds.
+	Flv uint32
 }
 
 type wVA struct {
@@ -60,6 +63,8 @@ type wNode struct {
 
 // condition encodings: Drained "" | "U" (+since) | "T"; Vol "" | "U" | "T" | "F"; Annot "" | "bad" | "at"
 type wClaim struct {
+	// Flv: Registered=False instead of Unknown when Reg is false; status.nodeName set when Reg is true
+	Flv          uint32
 	Managed, Fin bool
 	Del          *int64
 	Pid, Reg     bool
@@ -200,6 +205,11 @@ func mkNode(n *wNode) *corev1.Node {
 	}
 	if n.Lbl {
 		o.Labels[lbExclude] = "karpenter"
+	} else if n.Flv&1 == 1 {
+		o.Labels[lbExclude] = "someone-else"
+	}
+	if n.NoPid {
+		o.Spec.ProviderID = ""
 	}
 	if n.Fin {
 		o.Finalizers = append(o.Finalizers, v1.TerminationFinalizer)
@@ -211,14 +221,22 @@ func mkNode(n *wNode) *corev1.Node {
 			o.Finalizers = append(o.Finalizers, holdFin)
 		}
 	}
+	o.Spec.Taints = append(o.Spec.Taints, corev1.Taint{Key: "example.com/other", Effect: corev1.TaintEffectNoSchedule})
 	if n.Taint {
 		o.Spec.Taints = append(o.Spec.Taints, v1.DisruptedNoScheduleTaint)
+	} else if n.Flv&2 == 2 {
+		o.Spec.Taints = append(o.Spec.Taints, corev1.Taint{Key: v1.DisruptedTaintKey, Effect: corev1.TaintEffectNoExecute})
 	}
-	st := corev1.ConditionFalse
-	if n.Ready {
-		st = corev1.ConditionTrue
+	switch {
+	case n.Ready:
+		o.Status.Conditions = []corev1.NodeCondition{{Type: corev1.NodeMemoryPressure, Status: corev1.ConditionFalse}, {Type: corev1.NodeReady, Status: corev1.ConditionTrue}}
+	case n.Flv&12 == 4:
+		o.Status.Conditions = []corev1.NodeCondition{{Type: corev1.NodeReady, Status: corev1.ConditionUnknown}}
+	case n.Flv&12 == 8:
+		o.Status.Conditions = []corev1.NodeCondition{{Type: corev1.NodeMemoryPressure, Status: corev1.ConditionFalse}} // no Ready condition
+	default:
+		o.Status.Conditions = []corev1.NodeCondition{{Type: corev1.NodeReady, Status: corev1.ConditionFalse}}
 	}
-	o.Status.Conditions = []corev1.NodeCondition{{Type: corev1.NodeReady, Status: st}}
 	return o
 }
 
@@ -266,6 +284,11 @@ func mkClaimNamed(name string, c *wClaim, now int64) *v1.NodeClaim {
 	}
 	if c.Reg {
 		cs.SetTrue(v1.ConditionTypeRegistered)
+		if c.Flv&1 == 1 {
+			o.Status.NodeName = nodeName(0)
+		}
+	} else if c.Flv&2 == 2 && c.Pid {
+		cs.SetFalse(v1.ConditionTypeRegistered, "MultipleNodesFound", "Invariant violated, matched multiple nodes")
 	}
 	switch c.Drained {
 	case "U":
@@ -287,21 +310,57 @@ func mkClaimNamed(name string, c *wClaim, now int64) *v1.NodeClaim {
 	return o
 }
 
+var (
+	tolYes = [][]corev1.Toleration{
+		{{Key: v1.DisruptedTaintKey, Operator: corev1.TolerationOpExists, Effect: corev1.TaintEffectNoSchedule}},
+		{{Key: v1.DisruptedTaintKey, Operator: corev1.TolerationOpExists}},
+		{{Operator: corev1.TolerationOpExists}},
+		{{Key: "example.com/other", Operator: corev1.TolerationOpExists}, {Key: v1.DisruptedTaintKey, Operator: corev1.TolerationOpEqual, Effect: corev1.TaintEffectNoSchedule}},
+	}
+	tolNo = [][]corev1.Toleration{
+		nil,
+		{{Key: "example.com/other", Operator: corev1.TolerationOpExists}},
+		{{Key: v1.DisruptedTaintKey, Operator: corev1.TolerationOpExists, Effect: corev1.TaintEffectNoExecute}},
+		{{Key: v1.DisruptedTaintKey, Operator: corev1.TolerationOpEqual, Value: "x", Effect: corev1.TaintEffectNoSchedule}},
+	}
+)
+
 func mkPod(p *wPod) *corev1.Pod {
+	f := p.Flv
 	o := &corev1.Pod{
 		ObjectMeta: metav1.ObjectMeta{Namespace: "default", Name: podName(p.ID), UID: types.UID(fmt.Sprintf("pu%d", p.ID))},
 		Spec:       corev1.PodSpec{NodeName: nodeName(p.Node), Containers: []corev1.Container{{Name: "c", Image: "i"}}},
 		Status:     corev1.PodStatus{Phase: corev1.PodRunning},
 	}
-	if p.Terminal {
+	switch {
+	case p.Terminal && f&1 == 1:
+		o.Status.Phase = corev1.PodFailed
+	case p.Terminal:
 		o.Status.Phase = corev1.PodSucceeded
+	case f&1 == 1:
+		o.Status.Phase = corev1.PodPending
 	}
 	o.Spec.TerminationGracePeriodSeconds = p.Grace
 	if p.Tol {
-		o.Spec.Tolerations = []corev1.Toleration{{Key: v1.DisruptedTaintKey, Operator: corev1.TolerationOpExists, Effect: corev1.TaintEffectNoSchedule}}
+		o.Spec.Tolerations = tolYes[(f>>1)&3]
+	} else {
+		o.Spec.Tolerations = tolNo[(f>>1)&3]
 	}
 	if p.Static {
 		o.OwnerReferences = []metav1.OwnerReference{{APIVersion: "v1", Kind: "Node", Name: nodeName(p.Node), UID: "nu"}}
+	} else {
+		switch (f >> 3) & 3 {
+		case 1:
+			o.OwnerReferences = []metav1.OwnerReference{{APIVersion: "apps/v1", Kind: "DaemonSet", Name: "ds", UID: "dsu"}}
+		case 2:
+			o.OwnerReferences = []metav1.OwnerReference{{APIVersion: "apps/v1", Kind: "ReplicaSet", Name: "rs", UID: "rsu"}}
+		}
+	}
+	switch (f >> 5) & 3 {
+	case 1:
+		o.Spec.PriorityClassName = "system-cluster-critical"
+	case 2:
+		o.Spec.PriorityClassName = "system-node-critical"
 	}
 	if p.Del != nil {
 		t := metav1.NewTime(at(*p.Del))
@@ -309,8 +368,17 @@ func mkPod(p *wPod) *corev1.Pod {
 		o.Finalizers = []string{holdFin}
 	}
 	for _, x := range p.PVs {
-		o.Spec.Volumes = append(o.Spec.Volumes, corev1.Volume{Name: fmt.Sprintf("vol%d", x),
-			VolumeSource: corev1.VolumeSource{PersistentVolumeClaim: &corev1.PersistentVolumeClaimVolumeSource{ClaimName: pvcName(x)}}})
+		vol := corev1.Volume{Name: fmt.Sprintf("vol%d", x)}
+		if (f>>7)&1 == 1 { // generic ephemeral volume: its PVC is named <pod>-<volume>
+			vol.VolumeSource.Ephemeral = &corev1.EphemeralVolumeSource{}
+		} else {
+			vol.VolumeSource.PersistentVolumeClaim = &corev1.PersistentVolumeClaimVolumeSource{ClaimName: pvcName(x)}
+		}
+		o.Spec.Volumes = append(o.Spec.Volumes, vol)
+	}
+	if (f>>8)&1 == 1 { // volumes that resolve to no PV: an emptyDir and a claim that does not exist
+		o.Spec.Volumes = append(o.Spec.Volumes, corev1.Volume{Name: "scratch", VolumeSource: corev1.VolumeSource{EmptyDir: &corev1.EmptyDirVolumeSource{}}},
+			corev1.Volume{Name: "lost", VolumeSource: corev1.VolumeSource{PersistentVolumeClaim: &corev1.PersistentVolumeClaimVolumeSource{ClaimName: "no-such-claim"}}})
 	}
 	return o
 }
@@ -336,15 +404,19 @@ func (w *world) objects() []client.Object {
 	if w.Twin != nil {
 		objs = append(objs, mkClaimNamed(twinName, w.Twin, w.Now))
 	}
-	pvs := map[int64]bool{}
+	pvcs := map[string]int64{}
 	for _, p := range w.Pods {
 		objs = append(objs, mkPod(p))
 		for _, x := range p.PVs {
-			pvs[x] = true
+			if (p.Flv>>7)&1 == 1 {
+				pvcs[fmt.Sprintf("%s-vol%d", podName(p.ID), x)] = x
+			} else {
+				pvcs[pvcName(x)] = x
+			}
 		}
 	}
-	for x := range pvs {
-		objs = append(objs, &corev1.PersistentVolumeClaim{ObjectMeta: metav1.ObjectMeta{Namespace: "default", Name: pvcName(x)},
+	for name, x := range pvcs {
+		objs = append(objs, &corev1.PersistentVolumeClaim{ObjectMeta: metav1.ObjectMeta{Namespace: "default", Name: name},
 			Spec: corev1.PersistentVolumeClaimSpec{VolumeName: pvName(x)}})
 	}
 	for _, v := range w.VAs {
